@@ -143,6 +143,24 @@ pub fn cmd_ser(args: &[String]) -> i32 {
                         },
                     }
                 }
+                "flight" => {
+                    // several records through ONE serializer run into ONE output (cookie_factory `all`), and separately, concatenated
+                    let recs_json = v["recs"].as_array().cloned().unwrap_or_default();
+                    let mut stores: Vec<Vec<Store>> = Vec::new();
+                    for r in &recs_json { stores.push(r["msgs"].as_array().cloned().unwrap_or_default().iter().map(store_for_msg).collect()); }
+                    let recs: Vec<TlsPlaintext> = recs_json.iter().zip(stores.iter()).map(|(r, st)| {
+                        let msgs: Vec<TlsMessage> = r["msgs"].as_array().unwrap().iter().zip(st.iter()).map(|(m, s)| msg_of(m, s)).collect();
+                        TlsPlaintext { hdr: TlsRecordHeader { record_type: TlsRecordType(num(&r["ct"]) as u8), version: TlsVersion(num(&r["ver"]) as u16), len: num(&r["len"]) as u16 }, msg: msgs }
+                    }).collect();
+                    let together = cookie_factory::gen_simple(cookie_factory::multi::all(recs.iter().map(gen_tls_plaintext)), Vec::new());
+                    let mut apart: Vec<u8> = Vec::new();
+                    let mut apart_ok = true;
+                    for r in &recs { match r.serialize() { Ok(b) => apart.extend(b), Err(_) => apart_ok = false } }
+                    match together {
+                        Err(e) => json!({"ok": false, "err": generr(e)}),
+                        Ok(b) => json!({"ok": true, "bytes": b, "flight_equals_concatenation": apart_ok && apart == b}),
+                    }
+                }
                 "from_bytes" => {
                     // a value obtained by parsing a valid record, then serialized
                     let input = bytes(&v["bytes"]);
